@@ -5,10 +5,20 @@ tag = sys.argv[1]; ids = sys.argv[2:]
 props = {json.loads(l)["id"]: json.loads(l) for l in open("/verif/properties.jsonl")}
 wt = "/tmp/seed-%s" % tag
 out = "/tmp/seed-%s-out" % tag
+import glob, os
 txt = []
 for i in ids:
     p = props[i]
-    txt.append('Property %s — "%s": %s\n   (quantified over: %s)' % (i, p["title"], p["statement"], p["quantifier"]["text"]))
+    t = 'Property %s — "%s": %s\n   (quantified over: %s)' % (i, p["title"], p["statement"], p["quantifier"]["text"])
+    taken = []
+    for d in sorted(glob.glob("/verif/seeded/%s-*/meta.json" % i)):
+        try:
+            taken.append("      - " + (json.load(open(d)).get("summary", "") or "")[:260].replace("\n", " "))
+        except Exception:
+            pass
+    if taken:
+        t += "\n   Changes ALREADY TAKEN by earlier engineers (produce different ones: another function, another mechanism):\n" + "\n".join(taken)
+    txt.append(t)
 print(f"""You have a scratch git worktree of the paramiko SSH library at {wt} (Python; run things with `/venv/bin/python`, e.g. `cd {wt} && /venv/bin/python -m pytest -q -p no:cacheprovider tests/test_transport.py`). Work ONLY inside {wt} and {out} (do not look at or touch /verif or /repo or any other /tmp directory).
 
 Here are semantic properties the library is supposed to satisfy:
